@@ -27,14 +27,24 @@ impl ParamHandler {
     pub fn new(static_i: usize, mean_points: Vec<Point3>, initial: Option<&[Iso3]>) -> Self {
         let count = mean_points.len();
         let initial = enforce_initial(count, initial);
-        let raw_params = DVector::zeros((count - 1) * 6);
+        let mut raw_params = DVector::zeros((count - 1) * 6);
         assert_eq!(count, initial.len());
 
-        let params = initial
+        let params: Vec<RcParams3> = initial
             .iter()
             .zip(mean_points.iter())
             .map(|(t, p)| RcParams3::from_initial(t, p))
             .collect();
+
+        // The raw parameter vector starts at the parameters of the initial transforms (zeros would
+        // silently discard the initial rotation of every moving body)
+        let mut k = 0;
+        for (i, p) in params.iter().enumerate() {
+            if i != static_i {
+                raw_params.fixed_rows_mut::<6>(k * 6).copy_from(p.x());
+                k += 1;
+            }
+        }
 
         let mut item = Self {
             static_i,
